@@ -312,10 +312,14 @@ pub fn draw_plan(prop: &str, index: u64, r: &mut Rng, thorough: bool) -> RunPlan
     // range (segment tree): the scale at which a single call meets 10^5 expired entries
     // (ten times as often in the process-outcome check, whose extra pass on an unoptimised build
     // covers only its first few thousand runs)
-    let mass_stride = if cfg.has(O_CRASH) { 401 } else { 4_001 };
+    let mass_stride = if cfg.has(O_CRASH) { 101 } else { 4_001 };
     if index % mass_stride == 9 && !interpreted && !cfg.has(O_TORN) && bulk.is_none() && ord_bulk.is_none() && cfg.cap <= 1_000_000 {
         match cfg.world {
             WorldKind::Key => {
+                // the sorted list limits the size (quadratic otherwise): leave it out half of the time
+                if cfg.colls == C_TREE | C_LIST && !cfg.has(O_KEXPORT | O_CAP | O_MON) && r.chance(1, 2) {
+                    cfg.colls = C_TREE;
+                }
                 let with_list = cfg.colls & C_LIST != 0;
                 let n: i32 = if with_list { 70_000 } else { *r.pick(&[70_000, 150_000, 300_000]) };
                 let order = if with_list { 0 } else { r.below(2) as u8 };
